@@ -154,3 +154,54 @@ macro_rules! union_node {
 	};
 }
 pub(crate) use union_node;
+
+/// `stack_node!(n = SchemaNode::Array(nref(&LONG)))`: any node whose fields are read by the code under
+/// test must be a stack local (typed struct), not a `static` (see schema_nodes.rs).
+macro_rules! stack_node {
+	($id:ident = $e:expr) => {
+		let __n = std::mem::ManuallyDrop::new($e);
+		let $id: &'static crate::schema::self_referential::SchemaNode<'static> =
+			unsafe { std::mem::transmute(&*__n) };
+	};
+}
+pub(crate) use stack_node;
+
+/// Model of `core::str::from_utf8` used where UTF-8 validation itself is not the subject (std's
+/// word-at-a-time validator costs minutes per harness): same verdict as the reference validator.
+pub(crate) fn stub_from_utf8(v: &[u8]) -> Result<&str, std::str::Utf8Error> {
+	if spec::utf8_valid(v) {
+		// SAFETY: validated by the reference validator
+		Ok(unsafe { std::str::from_utf8_unchecked(v) })
+	} else {
+		// SAFETY (verification only): all-zero is a valid Utf8Error {valid_up_to: 0, error_len: None}; its
+		// content only feeds error text, which is outside every claim
+		Err(unsafe { std::mem::zeroed() })
+	}
+}
+
+/// union node for DEserializer harnesses: the serializer-side lookup table is not consulted when
+/// decoding, so it is left as the placeholder (no 20-slot table construction to unwind).
+macro_rules! union_node_de {
+	($id:ident = [$($v:expr),+]) => {
+		let mut __vars = std::mem::ManuallyDrop::new([$(crate::schema::verif::nref($v)),+]);
+		let __n = __vars.len();
+		let __node = std::mem::ManuallyDrop::new(crate::schema::self_referential::SchemaNode::Union(
+			crate::schema::self_referential::Union {
+				variants: unsafe { Vec::from_raw_parts(__vars.as_mut_ptr(), __n, __n) },
+				per_type_lookup: crate::schema::verif::per_type_lookup_placeholder(),
+			},
+		));
+		let $id: &'static crate::schema::self_referential::SchemaNode<'static> =
+			unsafe { std::mem::transmute(&*__node) };
+	};
+}
+pub(crate) use union_node_de;
+
+/// Stub for `rust_decimal::Decimal::try_from_i128_with_scale` in harnesses whose schema contains no
+/// decimal read through rust_decimal: when a node pointer is symbolic (union branch chosen by the
+/// input) CBMC explores the decimal arms although they are infeasible; the stub makes that cheap and
+/// FAILS the harness if the path is feasible after all (so it cannot hide anything).
+pub(crate) fn stub_no_rust_decimal(_num: i128, _scale: u32) -> Result<rust_decimal::Decimal, rust_decimal::Error> {
+	assert!(false, "verif: rust_decimal path reached in a harness that declared it unreachable");
+	Err(rust_decimal::Error::ExceedsMaximumPossibleValue)
+}
